@@ -122,6 +122,18 @@ class Observer:
             "targets": spec["targets"], "ledger": run.ledger.snapshot(), "trace": [list(map(str, t)) for t in run.trace[-30:]],
         })
 
+    def on_deadlock(self, run, in_notify):
+        """Quiescent loop while notify_status() is still pending: no release can ever happen again."""
+        if not self.judged or "deadlock" in self.flagged:
+            return
+        self.flagged.add("deadlock")
+        j, status = next(iter(in_notify.items()))
+        self.violations.append({
+            "mechanism": None, "job": j, "name": run.names[j],
+            "raised": f"Deadlock: notify_status({run.names[j]}, {status}) has not returned and the event loop is quiescent",
+            "targets": run.case["jobs"][j]["targets"], "ledger": run.ledger.snapshot(),
+            "trace": [list(map(str, t)) for t in run.trace[-30:]]})
+
     def finish(self, run):
         from vf.harness import c10_sched as H
 
@@ -135,7 +147,9 @@ class Observer:
         sh.case((self.case.get("class"), key, self.case.get("drain"), self.case.get("drain_status")), nontrivial=self.pending_checked > 0)
         for v in self.violations[:3]:
             mech = v.pop("mechanism")
-            if "raised" in v:
+            if "raised" in v and v["raised"].startswith("Deadlock"):
+                what = v["raised"]
+            elif "raised" in v:
                 what = f"schedule() of job {v['name']} raised {v['raised']} instead of being granted"
             else:
                 what = (f"at a quiescent point ({v['quiescent_point']}) schedule() of job {v['name']} is still waiting although "
